@@ -12,7 +12,7 @@
 (***************************************************************************)
 EXTENDS AsmCore, Json
 
-CONSTANTS CfgSel,       \* which toolchain.yaml: "absent", "empty", "broken", "partial", "crs", "hostile"
+CONSTANTS CfgSel,       \* which toolchain.yaml: "absent", "empty", "broken", "partial", "crs", "crsblock", "hostile"
           PoolSel,      \* "core": semantic pool; "hyg": text-hygiene pool (quotes, backslashes, \s, hex)
           MaxLines,     \* maximum number of source lines
           MaxDepth,     \* maximum block nesting
@@ -42,14 +42,20 @@ PAlt   == RT("x|\\.", << <<Lx>>, <<Lit(".")>> >>)          \* hostile: an altern
 PAltS  == RT("$|x", << <<Eol>>, <<Lx>> >>)
 MCCfg   == CASE CfgSel \in {"absent", "empty", "broken"} -> [unix |-> NoPattern, windows |-> NoPattern]
              [] CfgSel = "partial" -> [unix |-> [ev |-> PStar, sfx |-> RTEmpty, nsfx |-> RTEmpty], windows |-> NoPattern]
-             [] CfgSel = "crs"     -> [unix |-> [ev |-> PStar, sfx |-> PSfx, nsfx |-> PNSfx],
+             [] CfgSel \in {"crs", "crsblock"} -> [unix |-> [ev |-> PStar, sfx |-> PSfx, nsfx |-> PNSfx],
                                        windows |-> [ev |-> POpt, sfx |-> PNSfx, nsfx |-> PSfx]]
              [] CfgSel = "hostile" -> [unix |-> [ev |-> PAlt, sfx |-> PAltS, nsfx |-> PAlt],
                                        windows |-> [ev |-> PAltS, sfx |-> PAlt, nsfx |-> PAltS]]
 YamlOf(c) == "patterns:\n  anti_evasion:\n    unix: '" \o c.unix.ev.txt \o "'\n    windows: '" \o c.windows.ev.txt
              \o "'\n  anti_evasion_suffix:\n    unix: '" \o c.unix.sfx.txt \o "'\n    windows: '" \o c.windows.sfx.txt
              \o "'\n  anti_evasion_no_space_suffix:\n    unix: '" \o c.unix.nsfx.txt \o "'\n    windows: '" \o c.windows.nsfx.txt \o "'\n"
-ConfigText == CASE CfgSel = "absent" -> "" [] CfgSel = "empty" -> "\n" [] CfgSel = "broken" -> "patterns: [unclosed\n  x: 'y\n"
+\* the same values as YAML block scalars (the way CRS writes them): surrounding white space and the
+\* final newline of the scalar are not part of the pattern
+Blk(v) == "|\n      " \o v \o "  \n"
+YamlBlockOf(c) == "patterns:\n  anti_evasion:\n    unix: " \o Blk(c.unix.ev.txt) \o "    windows: " \o Blk(c.windows.ev.txt)
+             \o "  anti_evasion_suffix:\n    unix: " \o Blk(c.unix.sfx.txt) \o "    windows: " \o Blk(c.windows.sfx.txt)
+             \o "  anti_evasion_no_space_suffix:\n    unix: " \o Blk(c.unix.nsfx.txt) \o "    windows: " \o Blk(c.windows.nsfx.txt)
+ConfigText == CASE CfgSel = "absent" -> "" [] CfgSel = "crsblock" -> YamlBlockOf(MCCfg) [] CfgSel = "empty" -> "\n" [] CfgSel = "broken" -> "patterns: [unclosed\n  x: 'y\n"
                 [] OTHER -> YamlOf(MCCfg)
 
 (***************************************************************************)
